@@ -18,6 +18,10 @@
 //	           ApplicationParameters element makes decoding fail or the validator / digest check
 //	           reject.
 //
+// "Decoding" means every decode entry point the repository offers (entry.go): the typed
+// Spec.ReadInterest/ReadData, the generic spec.ReadPacket used by the engine and the forwarder, and
+// the receive path of a real std/engine/basic.Engine fed the bare packet or an NDNLPv2 frame.
+//
 // All decoding of corrupted bytes happens in child processes under `ulimit -v` (a flipped length
 // byte can make the decoder size an allocation by attacker data); a child that dies is restarted
 // after the offending bit, which is recorded in the coverage (it is a C04 matter, not a C12
@@ -234,6 +238,9 @@ type caseCtx struct {
 	held          *heldPacket
 }
 
+// otherEntries: the decode entry points besides the typed Spec.ReadInterest/ReadData.
+var otherEntries = []int{epPacket, epEngine, epEngineLp, epEngineLp0}
+
 var collapsedKey = "signed packet with a name component value of 253+ bytes does not decode (see C03)"
 
 func (c *caseCtx) viol(clause, key, detail string, extra map[string]any) {
@@ -309,6 +316,16 @@ type dec struct {
 	sig    ndn.Signature
 	cov    enc.Wire
 	hasSig bool
+	name   enc.Name // typed entry point only
+	err    error    // decode error when !ok (rendered on demand: why())
+}
+
+// why renders the reason of a failed decode.
+func (o dec) why() string {
+	if o.msg == "" && o.err != nil {
+		return "error: " + errClass(o.err)
+	}
+	return o.msg
 }
 
 func decode(interest bool, r enc.ParseReader) (o dec) {
@@ -320,15 +337,15 @@ func decode(interest bool, r enc.ParseReader) (o dec) {
 	if interest {
 		i, cov, err := spec.Spec{}.ReadInterest(r)
 		if err != nil {
-			return dec{msg: "error: " + errClass(err)}
+			return dec{err: err}
 		}
-		return dec{ok: true, sig: i.Signature(), cov: cov}
+		return dec{ok: true, sig: i.Signature(), cov: cov, name: i.Name()}
 	}
 	d, cov, err := spec.Spec{}.ReadData(r)
 	if err != nil {
-		return dec{msg: "error: " + errClass(err)}
+		return dec{err: err}
 	}
-	return dec{ok: true, sig: d.Signature(), cov: cov}
+	return dec{ok: true, sig: d.Signature(), cov: cov, name: d.Name()}
 }
 
 func validate(sp *pktgen.SignerSpec, o dec) (ok bool) {
@@ -467,7 +484,7 @@ func delayedVerify(cc *caseCtx, cur *pktgen.Built) {
 	cc.stat["decodes"]++
 	switch {
 	case !o.ok:
-		cc.violRaw("C12.cover", "an earlier packet no longer decodes after the same signer object signed the next packet ("+pb.SignerSp.Family+")", prev.label+" then "+cc.label+": "+o.msg, extra)
+		cc.violRaw("C12.cover", "an earlier packet no longer decodes after the same signer object signed the next packet ("+pb.SignerSp.Family+")", prev.label+" then "+cc.label+": "+o.why(), extra)
 	case !bytes.Equal(o.cov.Join(), pb.Rec.Covered):
 		cc.violRaw("C12.cover", "an earlier packet's signed portion differs from what its signer was handed once the same signer object signed the next packet ("+pb.SignerSp.Family+")", prev.label+" then "+cc.label, extra)
 	case pb.SignerSp.Validate != nil && !validate(pb.SignerSp, o):
@@ -573,7 +590,7 @@ func rebuildFromName(cc *caseCtx, a *pktgen.Built) {
 			return
 		}
 		if o := decode(true, enc.NewBufferReader(late)); !o.ok {
-			cc.viol("C12.digest", "an earlier Interest no longer decodes after a second Interest was built from its "+src, o.msg, extra)
+			cc.viol("C12.digest", "an earlier Interest no longer decodes after a second Interest was built from its "+src, o.why(), extra)
 		}
 		cc.stat["decodes"]++
 	}
@@ -645,12 +662,18 @@ func evalCase(s *space, idx int, startBit int, careful bool, thorough bool, dead
 	ref := decode(d.Interest, enc.NewBufferReader(B))
 	cc.stat["decodes"]++
 	if !ref.ok {
-		cc.viol("C12.cover", kind(&d)+" ("+fam+") does not decode: "+ref.msg, "contiguous decode of the packet just built: "+ref.msg, nil)
+		cc.viol("C12.cover", kind(&d)+" ("+fam+") does not decode: "+ref.why(), "contiguous decode of the packet just built: "+ref.why(), nil)
 		return
 	}
 	signed := b.Rec != nil && b.Rec.Asked
 	if signed || (d.Interest && d.PaySize != -1) {
 		cc.stat["nontrivial_cases"]++
+	}
+	// the engine of this case (its root Interest handler / a pending CanBePrefix Interest for the
+	// first component of the Data name record what the application is handed)
+	rig = newRig(d.Interest, ref.name)
+	if !rig.usable {
+		cc.stat["cases_engine_entry_points_not_applicable"]++
 	}
 	hasValidator := signed && b.SignerSp.Validate != nil
 	var lay layout
@@ -709,23 +732,75 @@ func evalCase(s *space, idx int, startBit int, careful bool, thorough bool, dead
 		if n > 1200 && root != nil {
 			cuts1 = root.HeaderCuts(n, 2)
 		}
-		trySeg := func(cuts ...int) {
-			o := decode(d.Interest, enc.NewWireReader(segs(B, cuts...)))
+		trySegVia := func(ep int, cuts ...int) {
+			o := decodeVia(ep, d.Interest, B, cuts)
 			cc.stat["decodes"]++
 			cc.stat["segmentations"]++
+			on, extra := "", map[string]any{"cuts": cuts}
+			if ep != epTyped {
+				on = " on " + entryWord[ep]
+				extra["entry_point"] = entryNames[ep]
+				cc.stat["segmentations_other_entry_points"]++
+			}
 			if !o.ok {
-				cc.viol("C12.cover", "segmented decode of a signed packet fails: "+o.msg, fmt.Sprintf("%s, %d bytes cut at %v", fam, n, cuts), map[string]any{"cuts": cuts})
+				cc.viol("C12.cover", "segmented decode of a signed packet fails"+on+": "+o.why(), fmt.Sprintf("%s, %d bytes cut at %v", fam, n, cuts), extra)
 				return
 			}
 			if !bytes.Equal(o.cov.Join(), want) {
-				cc.viol("C12.cover", "SigCovered from a segmented decode differs from the bytes handed to the signer",
-					fmt.Sprintf("%s, %d bytes cut at %v: signer saw %d bytes, parser covers %d", fam, n, cuts, len(want), len(o.cov.Join())), map[string]any{"cuts": cuts})
+				cc.viol("C12.cover", "SigCovered from a segmented decode"+on+" differs from the bytes handed to the signer",
+					fmt.Sprintf("%s, %d bytes cut at %v: signer saw %d bytes, parser covers %d", fam, n, cuts, len(want), len(o.cov.Join())), extra)
 				return
 			}
 			if len(cuts) == 1 && hasValidator && !b.SignerSp.Slow && (b.SignerSp.Family == "sha256" || b.SignerSp.Family == "hmac" || cuts[0]%8 == 0) {
 				cc.stat["validations"]++
 				if !validate(b.SignerSp, o) {
-					cc.viol("C12.accept", "validator rejects an untampered packet decoded from segments ("+b.SignerSp.Family+")", fmt.Sprintf("%s cut at %v", fam, cuts), map[string]any{"cuts": cuts})
+					cc.viol("C12.accept", "validator rejects an untampered packet decoded from segments"+on+" ("+b.SignerSp.Family+")", fmt.Sprintf("%s cut at %v", fam, cuts), extra)
+				}
+			}
+		}
+		trySeg := func(cuts ...int) { trySegVia(epTyped, cuts...) }
+		// the other entry points: contiguous, every 1-cut, and (base shapes; thorough: all) every pair of element offsets
+		for _, ep := range otherEntries {
+			if ep >= epEngine && !rig.usable {
+				continue
+			}
+			o := decodeVia(ep, d.Interest, B, nil)
+			cc.stat["decodes"]++
+			cc.stat["entry_point_decodes_untampered"]++
+			extra := map[string]any{"entry_point": entryNames[ep]}
+			switch {
+			case !o.ok:
+				cc.viol("C12.cover", kind(&d)+" ("+signerWord(b.SignerSp)+") decodes through Spec.Read"+kind(&d)+" but not through "+entryWord[ep]+": "+o.why(), fam+": contiguous bytes: "+o.why(), extra)
+				continue
+			case !bytes.Equal(o.cov.Join(), want):
+				cc.viol("C12.cover", kind(&d)+": SigCovered from "+entryWord[ep]+" differs from the bytes handed to the signer",
+					fmt.Sprintf("%s: signer saw %d bytes, %s covers %d", fam, len(want), entryNames[ep], len(o.cov.Join())), extra)
+				continue
+			case hasValidator:
+				cc.stat["validations"]++
+				if !validate(b.SignerSp, o) {
+					cc.viol("C12.accept", "matching validator rejects an untampered packet decoded through "+entryWord[ep]+" ("+signerWord(b.SignerSp)+" signer, "+b.SignerSp.Family+" validator)", fam, extra)
+					continue
+				}
+			}
+			if ep == epEngineLp0 {
+				continue // differs from the full LpPacket only in the header fields: contiguous decode only
+			}
+			cutsE := cuts1
+			if ep >= epEngine && !thorough && len(c.Devs) > 0 && root != nil {
+				cutsE = root.HeaderCuts(n, 1) // quick tier, deviated shapes, engine: cuts within 1 byte of an element offset
+			}
+			for _, p := range cutsE {
+				trySegVia(ep, p)
+			}
+			if root != nil && (thorough || len(c.Devs) == 0) {
+				hp := root.HeaderCuts(n, 0)
+				if len(hp) <= 60 {
+					for i := 0; i < len(hp); i++ {
+						for j := i + 1; j < len(hp); j++ {
+							trySegVia(ep, hp[i], hp[j])
+						}
+					}
 				}
 			}
 		}
@@ -870,6 +945,29 @@ func evalCase(s *space, idx int, startBit int, careful bool, thorough bool, dead
 	} else if lay.sigInfo != nil {
 		tamperCuts = append(tamperCuts, lay.sigInfo.Start)
 	}
+	// full plan (every entry point x every reader form) for the base shapes and in the thorough tier
+	fullPlan := thorough || len(c.Devs) == 0
+	plan := tamperPlan(fullPlan, len(tamperCuts))
+	if fullPlan {
+		cc.stat["packets_tampered_through_every_entry_point_and_reader_form"]++
+	} else {
+		cc.stat["packets_tampered_through_reduced_probe_plan"]++
+	}
+	if !signed && !resumed {
+		// unsigned Interests with parameters: which entry points decode the untampered packet is
+		// recorded (the property does not say they must; the tamper verdicts do not depend on it)
+		for _, ep := range otherEntries {
+			if ep >= epEngine && !rig.usable {
+				continue
+			}
+			cc.stat["decodes"]++
+			if o := decodeVia(ep, d.Interest, B, nil); o.ok {
+				cc.stat["entry_point_decodes_untampered"]++
+			} else {
+				cc.note("untampered_unsigned_interests_rejected_by_an_entry_point", entryNames[ep]+": "+o.why())
+			}
+		}
+	}
 	segOnly := ""
 	bitNo := -1
 	for oi, p := range offs {
@@ -898,29 +996,40 @@ func evalCase(s *space, idx int, startBit int, careful bool, thorough bool, dead
 				syscall.Kill(os.Getpid(), syscall.SIGKILL) // C12_SELFTEST_KILL: exercises the restart logic
 			}
 			buf[p] ^= 1 << bit
-			// every flipped packet is decoded three ways: contiguous, and through a WireReader
-			// for each cut in tamperCuts (middle of the packet; right before the
-			// ApplicationParameters / SignatureInfo element). Accepted by ANY path = accepted.
+			// every flipped packet goes through the probes of the plan (entry point x reader form:
+			// contiguous, or a WireReader cut in the middle of the packet / right before the
+			// ApplicationParameters / SignatureInfo element). Accepted by ANY probe = accepted.
 			cc.stat["bit_flips"]++
 			verdict, rejectedBy := "", ""
 			var first dec
 			firstVerdict, haveFirst := false, false
-			for pi := -1; pi < len(tamperCuts) && verdict == ""; pi++ {
-				var o dec
-				path := "contiguous bytes"
-				if pi < 0 {
-					o = decode(d.Interest, enc.NewBufferReader(buf))
-				} else {
-					o = decode(d.Interest, enc.NewWireReader(segs(buf, tamperCuts[pi])))
-					path = fmt.Sprintf("2 segments cut at %d", tamperCuts[pi])
+			acceptedVia := epTyped
+			for _, pr := range plan {
+				if verdict != "" {
+					break
 				}
+				if pr.ep >= epEngine && !rig.usable {
+					continue
+				}
+				var cuts []int
+				if pr.cut >= 0 {
+					cuts = tamperCuts[pr.cut : pr.cut+1]
+				}
+				o := decodeVia(pr.ep, d.Interest, buf, cuts)
+				pathOf := func() string { // only needed for an accepted flip
+					if pr.ep != epTyped {
+						return pr.String(tamperCuts) + " through " + entryNames[pr.ep]
+					}
+					return pr.String(tamperCuts)
+				}
+				pi := pr.cut
 				cc.stat["decodes"]++
 				switch {
 				case !o.ok && strings.HasPrefix(o.msg, "panic"):
 					if rejectedBy == "" {
 						rejectedBy = "panic"
 					}
-					cc.note("decoder_panics_on_flipped_packets", o.msg)
+					cc.note("decoder_panics_on_flipped_packets", o.why())
 				case !o.ok:
 					if rejectedBy == "" {
 						rejectedBy = "decoder"
@@ -937,15 +1046,18 @@ func evalCase(s *space, idx int, startBit int, careful bool, thorough bool, dead
 						first, firstVerdict, haveFirst = o, ok, true
 					}
 					if ok {
-						verdict = "decodes from " + path + " and the " + b.SignerSp.Family + " validator accepts"
-					} else if rejectedBy == "" || pi < 0 {
+						verdict = "decodes from " + pathOf() + " and the " + b.SignerSp.Family + " validator accepts"
+					} else if rejectedBy == "" || (pi < 0 && pr.ep == epTyped) {
 						rejectedBy = "validator"
 					}
 				default:
-					verdict = "decodes from " + path + " (parameters digest check passes)"
+					verdict = "decodes from " + pathOf() + " (parameters digest check passes)"
 				}
-				if verdict != "" && pi >= 0 {
-					segOnly = " when decoded from segments"
+				if verdict != "" {
+					acceptedVia = pr.ep
+					if pi >= 0 {
+						segOnly = " when decoded from segments"
+					}
 				}
 			}
 			switch {
@@ -970,9 +1082,77 @@ func evalCase(s *space, idx int, startBit int, careful bool, thorough bool, dead
 				if clause == "C12.digest" {
 					sg = "any" // the digest check does not depend on the signer
 				}
+				extra := map[string]any{"byte": p, "bit": bit}
+				if acceptedVia != epTyped {
+					// rejected by Spec.ReadInterest/ReadData, accepted by another entry point
+					segOnly += " by " + entryWord[acceptedVia] + " (Spec.Read" + kind(&d) + " rejects it)"
+					extra["entry_point"] = entryNames[acceptedVia]
+				}
 				cc.viol(clause, fmt.Sprintf("%s %s: single-bit flip in %s (%s) is accepted%s", sg, kind(&d), labelOf[p], where(root, p), segOnly),
 					fmt.Sprintf("%s: flipping bit %d of byte %d (%#02x -> %#02x): %s", fam, bit, p, B[p], B[p]^(1<<bit), verdict),
-					map[string]any{"byte": p, "bit": bit})
+					extra)
+			}
+		}
+	}
+	// ---- C12.digest, structural part: Interests whose digest component does not match their
+	// parameters in other ways than by one flipped bit. "One whose digest does not match is rejected
+	// on decode": by every entry point, signed or not (the digest component is outside the signed
+	// portion, no validator can notice it).
+	if d.Interest && lay.param != nil && lay.digest != nil && root.Start == 0 && root.End == n && lay.digest.End-lay.digest.VStart == 32 {
+		dig := B[lay.digest.VStart:lay.digest.End]
+		pval := B[lay.param.VStart:lay.param.End]
+		type mm struct {
+			what string
+			pkt  []byte
+		}
+		var mms []mm
+		withDigest := func(what string, v []byte) {
+			mms = append(mms, mm{"the digest component holds " + what, replaceElem(B, lay.digest, tlv(lay.digest.Typ, v))})
+		}
+		h1 := sha256.Sum256(pval)
+		h2 := sha256.Sum256(B[lay.param.Start:lay.param.End])
+		h3 := sha256.Sum256(nil)
+		withDigest("32 zero bytes", make([]byte, 32))
+		withDigest("the SHA-256 of the parameters value only", h1[:])
+		withDigest("the SHA-256 of the ApplicationParameters element only", h2[:])
+		withDigest("the SHA-256 of the empty string", h3[:])
+		withDigest("the correct digest rotated by one byte", append(append([]byte(nil), dig[1:]...), dig[0]))
+		withDigest("the first 31 bytes of the correct digest", dig[:31])
+		withDigest("the correct digest followed by a zero byte", append(append([]byte(nil), dig...), 0))
+		withDigest("the first 16 bytes of the correct digest", dig[:16])
+		mms = append(mms, mm{"the parameters value has one more (zero) byte than the digest covers",
+			replaceElem(B, lay.param, tlv(lay.param.Typ, append(append([]byte(nil), pval...), 0)))})
+		if len(pval) > 0 {
+			mms = append(mms, mm{"the parameters value lacks the last byte the digest covers",
+				replaceElem(B, lay.param, tlv(lay.param.Typ, pval[:len(pval)-1]))})
+			mms = append(mms, mm{"the parameters value lacks the first byte the digest covers",
+				replaceElem(B, lay.param, tlv(lay.param.Typ, pval[1:]))})
+		}
+		for _, m := range mms {
+			if bytes.Equal(m.pkt, B) {
+				continue // e.g. unsigned Interest: the element-only digest IS the correct one
+			}
+			cc.stat["digest_mismatch_variants"]++
+			for ep := 0; ep < nEntry; ep++ {
+				if ep >= epEngine && !rig.usable {
+					continue
+				}
+				for _, cuts := range [][]int{nil, {len(m.pkt) / 2}} {
+					o := decodeVia(ep, true, m.pkt, cuts)
+					cc.stat["decodes"]++
+					if !o.ok {
+						cc.stat["digest_mismatches_rejected_on_decode"]++
+						continue
+					}
+					by := ""
+					if ep != epTyped {
+						by = " by " + entryWord[ep]
+					}
+					cc.viol("C12.digest", "Interest whose parameters digest does not match ("+m.what+") is accepted on decode"+by,
+						fmt.Sprintf("%s: %s, lengths adjusted: decodes through %s", fam, m.what, entryNames[ep]),
+						map[string]any{"mismatch": m.what, "entry_point": entryNames[ep], "tampered_bytes": hexCap(m.pkt)})
+					break
+				}
 			}
 		}
 	}
@@ -1002,20 +1182,30 @@ func evalCase(s *space, idx int, startBit int, careful bool, thorough bool, dead
 			t := append(varNum(root.Typ), varNum(uint64(len(inner)))...)
 			t = append(t, inner...)
 			cc.stat["signature_resizes"]++
-			o := decode(d.Interest, enc.NewBufferReader(t))
-			cc.stat["decodes"]++
-			if !o.ok {
-				cc.stat["resizes_rejected_by_decoder"]++
-				continue
+			for ep := 0; ep < nEntry; ep++ {
+				if ep >= epEngine && !rig.usable {
+					continue
+				}
+				o := decodeVia(ep, d.Interest, t, nil)
+				cc.stat["decodes"]++
+				if !o.ok {
+					cc.stat["resizes_rejected_by_decoder"]++
+					continue
+				}
+				cc.stat["validations"]++
+				if !validate(b.SignerSp, o) {
+					cc.stat["resizes_rejected_by_validator"]++
+					continue
+				}
+				by := ""
+				if ep != epTyped {
+					by = " by " + entryWord[ep]
+				}
+				cc.viol("C12.tamper", fmt.Sprintf("%s-signed %s: signature value with %s (lengths adjusted) is accepted%s", b.SignerSp.Family, kind(&d), r.what, by),
+					fmt.Sprintf("%s: SignatureValue of %d bytes replaced by %d bytes (%s), enclosing lengths adjusted: decodes through %s and the %s validator accepts", fam, len(val), len(r.val), r.what, entryNames[ep], b.SignerSp.Family),
+					map[string]any{"resize": r.what, "entry_point": entryNames[ep]})
+				break
 			}
-			cc.stat["validations"]++
-			if !validate(b.SignerSp, o) {
-				cc.stat["resizes_rejected_by_validator"]++
-				continue
-			}
-			cc.viol("C12.tamper", fmt.Sprintf("%s-signed %s: signature value with %s (lengths adjusted) is accepted", b.SignerSp.Family, kind(&d), r.what),
-				fmt.Sprintf("%s: SignatureValue of %d bytes replaced by %d bytes (%s), enclosing lengths adjusted: decodes and the %s validator accepts", fam, len(val), len(r.val), r.what, b.SignerSp.Family),
-				map[string]any{"resize": r.what})
 		}
 	}
 	emit(msg{T: "sample", S: fmt.Sprintf("%s => %d bytes, %s; covered bytes agree (encoder, signer, parser, segmentations); %d single-bit flips all rejected=%v",
@@ -1139,9 +1329,9 @@ func evalSweep(s *space, idx int) {
 		cc.stat["decodes"]++
 		switch {
 		case !o.ok && crosses:
-			cc.viol("C12.cover", pre+"does not decode", fmt.Sprintf("%s: estimate %d, actual signature %d bytes: %s", b.SignerSp.Name, b.Rec.Inner.EstimateSize(), len(b.Rec.SigVal), o.msg), nil)
+			cc.viol("C12.cover", pre+"does not decode", fmt.Sprintf("%s: estimate %d, actual signature %d bytes: %s", b.SignerSp.Name, b.Rec.Inner.EstimateSize(), len(b.Rec.SigVal), o.why()), nil)
 		case !o.ok:
-			cc.viol("C12.cover", kind(&d)+" ("+b.SignerSp.Name+") does not decode: "+o.msg, o.msg, nil)
+			cc.viol("C12.cover", kind(&d)+" ("+b.SignerSp.Name+") does not decode: "+o.why(), o.why(), nil)
 		case !bytes.Equal(o.cov.Join(), b.Rec.Covered) || !bytes.Equal(b.SigCov.Join(), b.Rec.Covered):
 			cc.viol("C12.cover", pre+kind(&d)+": SigCovered (encoder or parser) differs from the bytes handed to the signer", b.SignerSp.Name, nil)
 		default:
@@ -1152,6 +1342,28 @@ func evalSweep(s *space, idx int) {
 				}
 				if it.lenClass {
 					cc.note("ecdsa_signature_lengths_built_and_verified", fmt.Sprintf("%s: %d bytes", b.SignerSp.Name, len(b.Rec.SigVal)))
+				}
+				// the same packet through the other entry points
+				rig = newRig(d.Interest, o.name)
+				for _, ep := range otherEntries {
+					if ep >= epEngine && !rig.usable {
+						continue
+					}
+					oe := decodeVia(ep, d.Interest, b.Bytes, nil)
+					cc.stat["decodes"]++
+					cc.stat["entry_point_decodes_untampered"]++
+					extra := map[string]any{"entry_point": entryNames[ep]}
+					switch {
+					case !oe.ok:
+						cc.viol("C12.cover", pre+kind(&d)+" ("+signerWord(b.SignerSp)+") decodes through Spec.Read"+kind(&d)+" but not through "+entryWord[ep]+": "+oe.why(), b.SignerSp.Name+": "+oe.why(), extra)
+					case !bytes.Equal(oe.cov.Join(), b.Rec.Covered):
+						cc.viol("C12.cover", pre+kind(&d)+": SigCovered from "+entryWord[ep]+" differs from the bytes handed to the signer", b.SignerSp.Name, extra)
+					default:
+						cc.stat["validations"]++
+						if !validate(b.SignerSp, oe) {
+							cc.viol("C12.accept", pre+"matching validator rejects an untampered packet decoded through "+entryWord[ep]+" ("+signerWord(b.SignerSp)+" signer, "+b.SignerSp.Family+" validator)", b.SignerSp.Name, extra)
+						}
+					}
 				}
 			} else {
 				key := "matching validator rejects an untampered packet (" + b.SignerSp.Family + " signer, " + b.SignerSp.Family + " validator)"
@@ -1360,6 +1572,12 @@ func childMain() {
 	}
 	s := buildSpace(thorough)
 	capped := false
+	if os.Getenv("C12_LABELS") != "" { // development aid: list the case space
+		for idx, c := range s.cases {
+			fmt.Fprintf(os.Stderr, "%d\t%s\n", idx, c.label)
+		}
+		return
+	}
 	if only := os.Getenv("C12_ONLY"); only != "" { // --replay: one case, named by its label
 		for _, want := range []string{only, os.Getenv("C12_ONLY_NEXT")} {
 			for idx, c := range s.cases {
@@ -1637,8 +1855,10 @@ func main() {
 			"context_reuse":        "one spec.PacketParsingContext per worker parses every signed packet (Init; Parse): its SigCovered must equal the signer's input, and the wire it returned for the previous packet must be unchanged and still verify after Init + Parse of the current packet",
 			"delayed_verification": "each worker keeps ONE signer object per mode; the un-joined Wire of the previous packet a signer object signed is joined, decoded, compared with what the signer was handed and validated only after the same object signed the next packet",
 			"segmentation":         "C12.cover: every 1-cut (packets >1200 B: cuts within 2 bytes of element offsets), every 2-cut for packets <=100 B (thorough, <=1 deviation: <=400 B) else all pairs of element offsets, every 3-cut for packets <=56 B (thorough, <=1 deviation: <=112 B) else outer-header-end + every pair of element offsets (quick tier, deviated shapes: pairs at most 3 offsets apart)",
-			"tamper_decode_paths":  "every flipped packet is decoded from contiguous bytes and from 2 segments cut (a) in the middle and (b) right before the ApplicationParameters (Interest) / SignatureInfo (Data) element; accepted by any path counts as accepted",
-			"tamper_resize":        "for every packet with a validator: the signature value with one zero byte / its first byte / itself appended, and with its last / first byte removed, all enclosing TLV lengths adjusted (the title's 'verify iff untampered' beyond single-bit flips); must be rejected by the decoder or the validator",
+			"entry_points":         "every decode goes through " + strings.Join(entryNames[:], "; ") + ". The engine is a real std/engine/basic.Engine on a harness face driven synchronously (root Interest handler; for Data a pending CanBePrefix Interest for the shortest name prefix not ending in an implicit-digest component, re-expressed when consumed); engine entry points are not applicable to Data without such a prefix and to names with a component over " + strconv.Itoa(engineMaxComp) + " bytes (counter cases_engine_entry_points_not_applicable). C12.cover/accept: every entry point from contiguous bytes and from every 1-cut (engine entry points on deviated shapes in the quick tier: cuts within 1 byte of an element offset; base shapes, thorough: all shapes: also every pair of element offsets); sweep / length-class builds: every entry point from contiguous bytes",
+			"tamper_decode_paths":  "reader forms: contiguous bytes, 2 segments cut (a) in the middle and (b) right before the ApplicationParameters (Interest) / SignatureInfo (Data) element. Every flipped packet of a base shape (thorough: of every shape) goes through every entry point x every reader form (LpPacket with Fragment only: contiguous); flipped packets of deviated shapes in the quick tier go through Spec.ReadInterest/ReadData x every reader form and spec.ReadPacket from contiguous bytes; accepted by any probe counts as accepted",
+			"tamper_resize":        "for every packet with a validator: the signature value with one zero byte / its first byte / itself appended, and with its last / first byte removed, all enclosing TLV lengths adjusted (the title's 'verify iff untampered' beyond single-bit flips); must be rejected by the decoder or the validator, through every entry point",
+			"digest_mismatch":      "every Interest with parameters that gets tampered: digest component replaced by 32 zero bytes / SHA-256 of the parameters value only / of the ApplicationParameters element only / of the empty string / the correct digest rotated / truncated to 31 and 16 bytes / extended to 33 bytes, and the parameters value extended by a zero byte / shortened at either end (all enclosing lengths adjusted): every entry point, from contiguous bytes and from 2 segments, must reject on decode",
 			"tamper":               "every bit of the signed portion, SignatureValue element, ApplicationParameters element and digest component when these total <=700 bytes; above: every bit of the bytes within 4 of an element boundary and one bit of every 251st (thorough, sha256/hmac/unsigned: 7th) other byte; P-521 (verification ~1 ms): quick tier base shapes only with bits 0 and 7 of every byte, thorough tier <=1-deviation shapes with every bit",
 		},
 	}
